@@ -1,5 +1,5 @@
 (* C04 property theorems: statements + `exact lemma` only. *)
-From CJ Require Import Common.Base C04.Model C04.Proofs C04.ProofsT.
+From CJ Require Import Common.Base C04.Model C04.Proofs C04.ProofsT C04.ProofsPaced.
 Local Open Scope nat_scope.
 
 (* For every registered client, every enabled wrapping transport t, every way the bytes
@@ -24,3 +24,33 @@ Theorem C04_segmentation_invariance :
       relay_stream (length fl) b rest = data.
 Proof. exact segmentation_invariance. Qed.
 Print Assumptions C04_segmentation_invariance.
+
+(* The same with a clock: however the segments are paced, as long as they arrive (at instants
+   that never decrease) before the classification deadline D, the handler's trace is: set the
+   deadline, successful Reads only, then clear the deadline, mark *that* registration active and
+   enter the relay with a replay buffer that is a prefix of `data` (the rest of `data` is what is
+   still to arrive on the live connection).  No time-out, no sleep, no return before the relay. *)
+Theorem C04_segmentation_invariance_paced :
+  forall (reveal : bytes -> list bytes) (mark : reginfo -> bytes -> bytes) (hs_ok : reginfo -> bytes -> bool)
+         (tbl : list pfx) (R : registry) (tracked : nat) (ts : list tid) (t : tid) (r : reginfo)
+         (fl data : bytes) (drain_cap : nat) (D : N) (script : list (N * bytes)),
+    prefix_table_wfb tbl = true ->
+    registered R r -> length R <= tracked -> In t ts ->
+    client_flight reveal mark hs_ok tbl R t r fl data ->
+    unambiguous reveal mark hs_ok tbl R ts t r fl (fl ++ data) ->
+    in_time D 0%N script -> stream_of script = fl ++ data ->
+    exists reads replay later,
+      run (cwrap reveal mark hs_ok tbl R) drain_cap D tracked ts script =
+        ASetDeadline D :: reads ++ [AClearDeadline; AMarkActive r; ARelay r replay] /\
+      Forall (fun a => exists u n, a = ARead u n /\ (u < D)%N) reads /\
+      replay ++ later = data.
+Proof. exact segmentation_invariance_paced. Qed.
+Print Assumptions C04_segmentation_invariance_paced.
+
+(* what the boolean re-checked on the dumped table means *)
+Theorem C04_prefix_table_wf_sound :
+  forall tbl, prefix_table_wfb tbl = true ->
+    (forall p, In p tbl -> p_min p = p_off p + tag_len /\ p_max p = p_off p + tag_len /\ p_off p = length (p_static p)) /\
+    NoDup (map p_id tbl).
+Proof. exact prefix_table_wf_sound. Qed.
+Print Assumptions C04_prefix_table_wf_sound.
